@@ -5,6 +5,7 @@ import (
 	"go/constant"
 	"go/token"
 	"go/types"
+	"sort"
 	"strings"
 
 	"golang.org/x/tools/go/ssa"
@@ -19,12 +20,12 @@ func init() {
 		Doc:      "grow-and-replace keeps every element: where a slice variable is replaced by a freshly made slice into which its old contents were copied (make + copy + assign), the new length provably covers the old one — it is len(old), or a dominating test pins len(old) to (at most) the constant length — otherwise the elements beyond the new length are silently dropped (loaded tables lose records)",
 		Controls: []string{"CtlGrowDropsTail"},
 		Run:      ruleFmt7})
-	Register(&Rule{ID: "R-TXN-9", Props: []string{"C01", "C02", "C10"}, Floor: 2,
-		Doc:      "rewind before encode: every EncodeView in Transaction.Commit that writes to a handler's file is dominated by Truncate(0) and Seek(0, start) on that same file — the temp file lives as long as the handler, so a COMMIT that was refused half-way must not leave a stale prefix for the next COMMIT",
-		Run:      ruleTxn9})
+	Register(&Rule{ID: "R-TXN-9", Props: []string{"C01", "C02", "C10"}, Floor: 1,
+		Doc: "rewind before encode: every EncodeView in Transaction.Commit that writes to a handler's file is dominated by Truncate(0) and Seek(0, start) on that same file — the temp file lives as long as the handler, so a COMMIT that was refused half-way must not leave a stale prefix for the next COMMIT",
+		Run: ruleTxn9})
 	Register(&Rule{ID: "R-SWAP-4", Props: []string{"C10", "C11"}, Floor: 1,
-		Doc:      "the original table descriptor is never written: no Write / WriteString / WriteAt / Truncate / Seek on a value loaded from Handler.fp inside lib/file unless the handler was opened ForCreate (dominating openType test); new contents of an updated table go to the temp file only",
-		Run:      ruleSwap4})
+		Doc: "the original table descriptor is never written: no Write / WriteString / WriteAt / Truncate / Seek on a value loaded from Handler.fp inside lib/file unless the handler was opened ForCreate (dominating openType test); new contents of an updated table go to the temp file only",
+		Run: ruleSwap4})
 }
 
 // cellOf returns the variable cell (Alloc / FreeVar / FieldAddr) a value was loaded from.
@@ -224,48 +225,99 @@ func ruleTxn9(c *Ctx) {
 	if fn == nil {
 		return
 	}
+	// Commit, its closures and the lib/query helpers it calls statically: the encode may live in any of them.
+	reach := staticReach(fn)
+	var fns []*ssa.Function
+	for f := range reach {
+		if f.Blocks != nil && c.P.InPkg(f, "lib/query") {
+			fns = append(fns, f)
+		}
+	}
+	sort.Slice(fns, func(i, j int) bool { return c.P.Name(fns[i]) < c.P.Name(fns[j]) })
+	// rewound(f, at, file): Truncate(0) and Seek(0, …) on file dominate the instruction at in f; when file is a
+	// parameter of f, every call of f from the Commit region must pass a rewound file.
+	var rewound func(f *ssa.Function, at ssa.Instruction, file ssa.Value, depth int) (bool, bool)
+	rewound = func(f *ssa.Function, at ssa.Instruction, file ssa.Value, depth int) (bool, bool) {
+		hasTrunc, hasSeek := false, false
+		for _, other := range core.Calls(f) {
+			name := c.P.CalleeName(other)
+			if name != "(*os.File).Truncate" && name != "(*os.File).Seek" {
+				continue
+			}
+			recv := other.Common().Args[0]
+			if recv != file && !core.SameCell(recv, file) {
+				continue
+			}
+			if !core.Dominates(other.(ssa.Instruction), at) {
+				continue
+			}
+			zero, isConst := core.ConstInt(other.Common().Args[1])
+			if !isConst || zero != 0 {
+				continue
+			}
+			if name == "(*os.File).Truncate" {
+				hasTrunc = true
+			} else {
+				hasSeek = true
+			}
+		}
+		if hasTrunc && hasSeek {
+			return true, true
+		}
+		par, isParam := core.Strip(file).(*ssa.Parameter)
+		if !isParam || depth >= 3 {
+			return hasTrunc, hasSeek
+		}
+		idx := -1
+		for i, q := range f.Params {
+			if q == par {
+				idx = i
+			}
+		}
+		callers := 0
+		allT, allS := true, true
+		for _, g := range fns {
+			for _, call := range core.Calls(g) {
+				if call.Common().StaticCallee() != f || idx < 0 || idx >= len(call.Common().Args) {
+					continue
+				}
+				callers++
+				t, s := rewound(g, call.(ssa.Instruction), core.Strip(call.Common().Args[idx]), depth+1)
+				allT = allT && (t || hasTrunc)
+				allS = allS && (s || hasSeek)
+			}
+		}
+		if callers == 0 {
+			return hasTrunc, hasSeek
+		}
+		return allT, allS
+	}
 	n := 0
-	fns := append([]*ssa.Function{fn}, fn.AnonFuncs...)
 	for _, f := range fns {
+		k := 0
 		for _, call := range c.P.CallsNamed(f, "lib/query.EncodeView") {
-			n++
 			fp := call.Common().Args[1]
 			// the writer is an *os.File converted to io.Writer
 			file := core.Strip(fp)
-			key := c.KeyAt(fn, fmt.Sprintf("EncodeView #%d", n))
 			if !strings.HasSuffix(file.Type().String(), "os.File") {
-				c.Unknown(key, c.Pos(call), "cannot-analyse: the writer handed to EncodeView is not an *os.File value")
+				if f == fn || f.Parent() == fn {
+					n++
+					k++
+					c.Unknown(c.KeyAt(f, fmt.Sprintf("EncodeView #%d", k)), c.Pos(call), "cannot-analyse: the writer handed to EncodeView is not an *os.File value")
+				}
 				continue
 			}
-			hasTrunc, hasSeek := false, false
-			for _, other := range core.Calls(f) {
-				name := c.P.CalleeName(other)
-				if name != "(*os.File).Truncate" && name != "(*os.File).Seek" {
-					continue
-				}
-				recv := other.Common().Args[0]
-				if recv != file && !core.SameCell(recv, file) {
-					continue
-				}
-				if !core.Dominates(other.(ssa.Instruction), call.(ssa.Instruction)) {
-					continue
-				}
-				zero, isConst := core.ConstInt(other.Common().Args[1])
-				if !isConst || zero != 0 {
-					continue
-				}
-				if name == "(*os.File).Truncate" {
-					hasTrunc = true
-				} else {
-					hasSeek = true
-				}
-			}
+			n++
+			k++
+			c.Touch(f)
+			key := c.KeyAt(f, fmt.Sprintf("EncodeView #%d", k))
+			hasTrunc, hasSeek := rewound(f, call.(ssa.Instruction), file, 0)
 			c.Check(hasTrunc && hasSeek, key, c.Pos(call), "dominated by Truncate(0) and Seek(0, …) on the same file",
 				fmt.Sprintf("the file is not rewound before encoding (Truncate(0): %v, Seek(0): %v): what an earlier, refused COMMIT already flushed into the handler's temp file stays in front of the table", hasTrunc, hasSeek))
 		}
 	}
 	if n == 0 {
-		c.Unknown(c.KeyAt(fn, "EncodeView"), c.FnPos(fn), "cannot-analyse: no EncodeView call in Commit or its closures (moved into a helper?)")
+		c.Unknown(c.KeyAt(fn, "EncodeView"), c.FnPos(fn), "cannot-analyse: no EncodeView call into a file in Commit, its closures or the lib/query functions it calls")
 	}
 }
 
